@@ -56,7 +56,7 @@ TNext ==
   \/ Quiet(Ev.a = "Build" /\ Build)
   \/ Quiet(Ev.a = "AcquireWriteLock" /\ AcquireWriteLock(Ev.w, Ev.kind))
   \/ Quiet(Ev.a = "Open" /\ Open(Ev.w))
-  \/ Quiet(Ev.a = "CommitUpdateCurrent" /\ CommitUpdateCurrent(Ev.w))
+  \/ Quiet(Ev.a = "CommitUpdateCurrent" /\ CommitUpdateCurrent(Ev.w, Ev.bump))
   \/ Quiet(Ev.a = "CommitPushVersion" /\ CommitPushVersion(Ev.w))
   \/ Writes(Ev.a = "DropWriter" /\ DropWriter(Ev.w), FALSE)
   \/ Writes(Ev.a = "W_UpdateChild" /\ W_UpdateChild(Ev.w, Ev.n), TRUE)
